@@ -252,7 +252,7 @@ impl Property for C15 {
     }
     fn cases(&self, tier: Tier) -> usize {
         match tier {
-            Tier::Quick => 150_000,
+            Tier::Quick => 600_000,
             Tier::Thorough => 4_000_000,
         }
     }
